@@ -1960,6 +1960,18 @@ int EGLPNUM_TYPENAME_ILLlib_chgsense (
 	EGLPNUM_TYPENAME_ILLlpdata *qslp = lp->O;
 	EGLPNUM_TYPENAME_ILLmatrix *A = &(lp->O->A);
 
+	/* validate every item first: a failing call changes nothing */
+	for (i = 0; i < num; i++)
+	{
+		if (rowlist[i] < 0 || rowlist[i] >= qslp->nrows ||
+				(sense[i] != 'L' && sense[i] != 'G' && sense[i] != 'E' && sense[i] != 'R'))
+		{
+			QSlog("EGLPNUM_TYPENAME_ILLlib_chgsense called with bad item %d", i);
+			rval = 1;
+			ILL_CLEANUP;
+		}
+	}
+
 	for (i = 0; i < num; i++)
 	{
 		j = qslp->rowmap[rowlist[i]];
